@@ -45,6 +45,8 @@ const stepBudget = 5 * time.Second
 
 type l3Case struct {
 	ShutdownS  int    `json:"shutdown_s"`
+	// ShutdownOmitted: server.timeouts.shutdown is left out of the file (documented default 30 s; ShutdownS is 30 then)
+	ShutdownOmitted bool `json:"shutdown_omitted,omitempty"`
 	Signal     string `json:"signal"` // TERM | INT
 	Point      string `json:"point"`  // before-answer | mid-body | idle | half-sent-head (the client has sent the request line and one header field; the rest of the head follows ReleaseMs after the signal; the backend answers at once)
 	Status     int    `json:"status,omitempty"`
@@ -94,14 +96,17 @@ func genL3(rt *rapid.T) l3Case {
 				c.ReadFirst = c.Part1 - 8192
 			}
 		}
-		c.Over = c.Point != "half-sent-head" && rapid.IntRange(0, 6).Draw(rt, "outlasts") == 0
+		if rapid.IntRange(0, 5).Draw(rt, "shutdown_omitted") == 0 {
+			c.ShutdownOmitted, c.ShutdownS = true, 30
+		}
+		c.Over = c.Point != "half-sent-head" && !c.ShutdownOmitted && rapid.IntRange(0, 6).Draw(rt, "outlasts") == 0
 		if c.Point == "half-sent-head" {
 			// the rest of the request head follows this long after the signal (well inside the 5 s
 			// for which net/http's Shutdown leaves alone a connection whose first request is still
 			// being read)
 			c.ReleaseMs = rapid.SampledFrom([]int{0, 20, 200, 500}).Draw(rt, "rest_after_ms")
 		} else if !c.Over {
-			c.ReleaseMs = rapid.SampledFrom([]int{0, 20, 200, 600, (c.ShutdownS - 1) * 1000}).Draw(rt, "release_ms")
+			c.ReleaseMs = rapid.SampledFrom([]int{0, 20, 200, 600, (min(c.ShutdownS, 4) - 1) * 1000}).Draw(rt, "release_ms")
 		}
 	}
 	if rapid.IntRange(0, 2).Draw(rt, "second") == 0 {
@@ -127,7 +132,12 @@ func genL3(rt *rapid.T) l3Case {
 
 func (c l3Case) yaml(port, metricsPort int, backendURL string) string {
 	var b strings.Builder
-	fmt.Fprintf(&b, "server:\n  port: %d\n  timeouts:\n    shutdown: %d\n", port, c.ShutdownS)
+	if c.ShutdownOmitted {
+		// documented default: 30 s
+		fmt.Fprintf(&b, "server:\n  port: %d\n", port)
+	} else {
+		fmt.Fprintf(&b, "server:\n  port: %d\n  timeouts:\n    shutdown: %d\n", port, c.ShutdownS)
+	}
 	fmt.Fprintf(&b, "backends:\n  - name: \"b0\"\n    address: \"%s\"\n    weight: 1\n", backendURL)
 	b.WriteString("load_balancer:\n  strategy: \"round_robin\"\n")
 	if c.Active {
